@@ -7,7 +7,7 @@ ID = "C12"
 BUDGET = {"quick": 1500, "thorough": 60000}
 RULE = ("indentation strings of 0..8 spaces/tabs; partial bodies built from lines of text, expressions (data with multi-line "
         "and empty strings), inline and multi-line block helpers and nested standalone partials (≤ 3 levels); called at top "
-        "level and inside each/if/with; prevent_indent on and off; oracle = indent_lines(render of the partial alone, W) "
+        "level and inside each/if/with; prevent_indent on and off; the calling template rendered directly, registered from a string, from a file, and from a file under dev mode; oracle = indent_lines(render of the partial alone, W) "
         "compared modulo whitespace on blank lines (prevent_indent: only the first line keeps W); the partial alone is "
         "rendered by the real crate in the same session; non-trivial = the partial writes ≥ 2 lines; distinct by "
         "(W, body, data)")
@@ -115,7 +115,20 @@ def gen_case(rng, i):
         n = 2
     cfg = {"escape": "none", "prevent_indent": pi}
     ops = [{"op": "reg_string", "reg": 0, "name": nm, "src": s} for nm, s in templates]
-    ops.append({"op": "render", "reg": 0, "api": "render_template", "src": main, "data": enc(DATA)})
+    # how the calling template reaches the renderer: as a string rendered directly, registered from a string, registered from a
+    # file, or registered from a file under dev mode (re-read and recompiled at render time) – the registry's prevent_indent
+    # setting holds for each of them
+    via = rng.weighted([("template", 5), ("string", 2), ("file", 1), ("devfile", 2)])
+    if via == "template":
+        ops.append({"op": "render", "reg": 0, "api": "render_template", "src": main, "data": enc(DATA)})
+    else:
+        if via == "string":
+            ops.append({"op": "reg_string", "reg": 0, "name": "main", "src": main})
+        else:
+            if via == "devfile":
+                ops.append({"op": "set_dev", "reg": 0, "v": True})
+            ops += [{"op": "write_file", "file": "f0", "content": main}, {"op": "reg_file", "reg": 0, "name": "main", "file": "f0"}]
+        ops.append({"op": "render", "reg": 0, "api": rng.pick(["render", "render_to_write"]), "name": "main", "data": enc(DATA)})
     # the partial alone, on the context it is called with
     if where == "each":
         for y in DATA["ys"]:
